@@ -31,6 +31,10 @@ HAND = [
  (["param (p, q)\nw := 7", "return [p, q, w]"], "return [p, q, w]"),
  (["param (p, ...q)\nc := 1\nreturn [p, q, c]", "return [p, q, c]"], "return [p, q, c]"),
  (["param (...q)\nc := 1", "return [q, c]"], "return [q, c]"),
+ # a param statement after variables exist (in the same or an earlier fragment)
+ (["x := 1", "param ...v", "return x"], "return [x]"),
+ (["x := 1\ny := 2", "param (a, ...v)", "return [x, y]"], "return [x, y]"),
+ (["x := 1\nparam (a, b)", "return [x, a, b]"], "return [x]"),
 ]
 
 FOLDABLE = [("len", 'len("abc")'), ("int", 'int("2")'), ("uint", 'uint("2")'), ("char", "char(65)"), ("float", 'float("1.5")'),
@@ -59,7 +63,7 @@ def shadow_sessions(rng, tier):
 
 def run(rep, br, proofs, rng, tier):
     n = 250 if tier == "quick" else 5000
-    cases = []
+    cases, fcases = [], []
     for i, (frags, probe) in enumerate(shadow_sessions(rng, tier)):
         for opt in ("opt", "noopt"):
             c = mk_case("s%d.%s" % (i, opt), "evalseq", opt, ["frags"] + [hexs(f.encode()) for f in frags], hexs(probe.encode()), *[hexs(m.encode()) for m in MODS])
@@ -96,6 +100,17 @@ def run(rep, br, proofs, rng, tier):
         probe = "return [%s]" % ", ".join(["out"] + names)
         c = mk_case("g%d" % i, "evalseq", rng.choice(["opt", "noopt"]), ["frags"] + [hexs(f.encode()) for f in frags], hexs(probe.encode()), *[hexs(m.encode()) for m in MODS])
         c["frags"], c["probe"] = frags, probe; cases.append(c)
+        # the same session with a failing statement appended to its last fragment: the state kept after the failure
+        if i % 2 == 0:
+            fail = rng.choice(['throw "boom"', "[][1]", "out = append(out, 1 / (len(out) - len(out)))", "out[len(out) + 1] = 0"])
+            fs = mk_case("f%d" % i, "evalfailstate", rng.choice(["opt", "noopt"]), ["frags"] + [hexs(x.encode()) for x in frags], hexs(fail.encode()), hexs(probe.encode()), *[hexs(m.encode()) for m in MODS])
+            fs["frags"], fs["probe"], fs["fail"] = frags, probe, fail; fcases.append(fs)
+    for j, (frags, fail, probe) in enumerate([(["x := 1", "x = 2\ny := 3"], 'throw "boom"', "return [x, y]"),
+                                              (["a := [1]\nb := 5", "b = 6\na = append(a, b)\nc := a"], "[][1]", "return [a, b, c]"),
+                                              (["param (p, q)\nw := p", "w = 9\nq = 8"], "w = q / (p - p)", "return [p, q, w]")]):
+        fs = mk_case("fh%d" % j, "evalfailstate", "opt", ["frags"] + [hexs(x.encode()) for x in frags], hexs(fail.encode()), hexs(probe.encode()), *[hexs(m.encode()) for m in MODS])
+        fs["frags"], fs["probe"], fs["fail"] = frags, probe, fail; fcases.append(fs)
+    fimpl, _ = vlib.run_impl([c["line"] for c in fcases], timeout=3000)
     impl, _ = vlib.run_impl([c["line"] for c in cases], timeout=3000)
     fails, compared, nfrag = [], 0, 0
     for c in cases:
@@ -123,11 +138,27 @@ def run(rep, br, proofs, rng, tier):
                     fails.append((c, "fragment %d: printed output differs: session %r, batch adds %r" % (k, eo, bo[len(prev_out):]))); break
                 prev_out = bo
             compared += 1
+    fstate = 0
+    for c in fcases:
+        out = fimpl.get(c["id"])
+        if out is None: fails.append((c, "no output")); continue
+        if not out.startswith("(evalfailstate"):
+            c["frags"] = c["frags"][:-1] + [c["frags"][-1] + "\n" + c["fail"]]
+            fails.append((c, "the session with a failing last fragment: %s" % out[:300])); continue
+        sx = vlib.parse_sexp(out)
+        wf, wo, ba = vlib.sexp_str(sx[1]), vlib.sexp_str(sx[2]), vlib.sexp_str(sx[3])
+        if wf.startswith("(skip") or wo.startswith("(skip") or "timeout" in wf + wo + ba: continue
+        fstate += 1
+        c["frags"] = c["frags"][:-1] + [c["frags"][-1] + "\n" + c["fail"]]
+        if wf != wo:
+            fails.append((c, "after the last fragment failed at its last statement (%s) the session's variables are %s; the statements before it ran, and without the failing statement they leave %s" % (c["fail"], wf[:300], wo[:300])))
+        elif not ba.startswith("(skip") and wo != ba:
+            fails.append((c, "session state %s differs from the concatenated script %s" % (wo[:300], ba[:300])))
     for c, why in fails[:10]:
         rep.violation({"property": "C10", "kind": "oracle", "why": why, "case": c["line"][:2000], "script": "\n//CUT\n".join(c["frags"]) + "\n//PROBE\n" + c["probe"]})
     rep.coverage.update({
         "evaluations": len(cases), "distinct_nontrivial": compared,
-        "rule": "hand-made sessions (closure capture across a cut, const/iota groups, slot reuse after blocks, imports, per-iteration closures, destructuring, try, globals, shadowed builtins, a failing fragment, params), sessions binding a builtin name by every top-level binding form (:=, var, const literal / iota / alias / folded expression, global, function value, destructuring, param) and using it in a later fragment (called on constant arguments at top level and in a function literal, read as a value) and generated top-level statement lists cut at 1-4 random statement boundaries, fragments optionally ending in `return <expr>`; each fragment's value or error (name, message) and printed output in one Eval session is compared with the concatenation of the fragments so far run as one script on a fresh VM, and a probe fragment returning every declared name is compared at the end; non-trivial = fragment results compared",
+        "rule": "hand-made sessions (closure capture across a cut, const/iota groups, slot reuse after blocks, imports, per-iteration closures, destructuring, try, globals, shadowed builtins, a failing fragment, params), sessions binding a builtin name by every top-level binding form (:=, var, const literal / iota / alias / folded expression, global, function value, destructuring, param) and using it in a later fragment (called on constant arguments at top level and in a function literal, read as a value) and generated top-level statement lists cut at 1-4 random statement boundaries, fragments optionally ending in `return <expr>`; each fragment's value or error (name, message) and printed output in one Eval session is compared with the concatenation of the fragments so far run as one script on a fresh VM, and a probe fragment returning every declared name is compared at the end; half of the generated sessions are repeated with a statement that fails at run time appended to the last fragment (throw, index errors, division by zero), and the probe run after the failure must return the state the statements before it left; non-trivial = fragment results compared",
         "samples": ["\n//CUT\n".join(cases[0]["frags"]), "\n//CUT\n".join(cases[len(HAND)*2]["frags"])],
         "sessions": len(cases), "fragment_results_compared": compared, "oracle_failures": len(fails)})
 
